@@ -125,3 +125,59 @@ def materialise(seqs, container, perm_seed=0):
 
 def has_run(s):
     return any(s[i] == s[i - 1] for i in range(1, len(s)))
+
+
+# ---------------------------------------------------------------------------
+# Large collections with an exact oracle that needs no all-pairs computation
+# ---------------------------------------------------------------------------
+PLANT_BLOCKS = "ACDEFGH"     # one letter per block; all amino acids, so every engine accepts them
+
+
+def codeword(i, k):
+    """The i-th codeword for radius k: block j holds letter PLANT_BLOCKS[j] repeated 1 + (k+3)*d_j times, d = base-5 digits
+    of i. One edit operation changes the count of any given letter by at most one, so two different codewords (some digit
+    differs => some letter count differs by >= k+3) are at Levenshtein distance >= k+3."""
+    out = []
+    for j, L in enumerate(PLANT_BLOCKS):
+        d = (i // (5 ** j)) % 5
+        out.append(L * (1 + (k + 3) * d))
+    return "".join(out)
+
+
+def planted_collection(n, k, salt=0, high=True):
+    """n strings: distinct codewords plus, at chosen positions (the highest ones when `high`), members of a few families:
+    exact duplicates and one-edit mutants of a parent codeword. A mutant is one edit away from its parent, hence at distance
+    >= k+2 from every other codeword and >= k+1 from every mutant of another parent: ALL neighbour pairs within radius k lie
+    inside a family. Returns (seqs, families) with families = list of position lists."""
+    nfam = max(2, min(12, n // 40))
+    per = 4
+    n_code = n - nfam * (per - 1)
+    seqs = [codeword((i * 7919 + salt) % (5 ** len(PLANT_BLOCKS)), k) for i in range(n_code)]
+    assert len(set(seqs)) == len(seqs)
+    parents = [n_code - 1 - 3 * f for f in range(nfam)] if high else [3 * f for f in range(nfam)]
+    families = []
+    extra = []
+    for f, p in enumerate(parents):
+        s = seqs[p]
+        pos = (f * 5 + salt) % len(s)
+        members = [s,                                         # exact duplicate
+                   s[:pos] + "W" + s[pos + 1:],               # substitution by a letter no codeword contains
+                   (s[:pos] + s[pos + 1:]) if f % 2 else (s[:pos] + "Y" + s[pos:])]   # deletion / insertion
+        fam = [p]
+        for mseq in members:
+            fam.append(n_code + len(extra))
+            extra.append(mseq)
+        families.append(fam)
+    return seqs + extra, families
+
+
+def planted_neighbours(seqs, families, k, dist):
+    out = []
+    for fam in families:
+        for a in fam:
+            for b in fam:
+                if a != b:
+                    d = dist(seqs[a], seqs[b])
+                    if d <= k:
+                        out.append((a, b, d))
+    return out
